@@ -465,8 +465,29 @@ def run(ctx):
     fa = not ctx.known_key("eq-spaces")
     fb = not ctx.known_key("interleaved-implicit-order")
     fd = not ctx.known_key("output-ellipsis-only")
-    FX = "(mkFx %s %s %s)" % (coq(fa), coq(fb), coq(fd))
-    ctx.meta["model_variant"] = {"fx_spaces": fa, "fx_inter": fb, "fx_outell": fd}
+    # interleaved-output-ellipsis-only: decided from the real behaviour of the code under test (the
+    # repair may be proposed but not yet committed): does convert_from_interleaved still look the
+    # output's Ellipsis up in the symbol map?
+    try:
+        U.convert_from_interleaved(((2, 3), [0, 1], [Ellipsis, 1, 0]))
+        fio = True
+    except KeyError:
+        fio = False
+    FX = "(mkFx %s %s %s %s)" % (coq(fa), coq(fb), coq(fd), coq(fio))
+    ctx.meta["model_variant"] = {"fx_spaces": fa, "fx_inter": fb, "fx_outell": fd, "fx_interout": fio}
+    # a `fixed: property=C12 PENDING key=<k> ...` line: the repair exists as a proposed patch but is not
+    # yet a commit of /repo; while the old failure still occurs it is reported as a KNOWN-FINDING
+    pending = {}
+    for prop, commit, text in ctx.kf.fixed:
+        m = re.match(r"key=(\S+)\s+(.*)", text)
+        if prop == PROP and commit == "PENDING" and m:
+            pending[m.group(1)] = "(repair pending) " + m.group(2)
+
+    def report(what, rec, key=None, found_input=True):
+        if key is not None and not ctx.known_key(key) and key in pending:
+            ctx.known_hits.setdefault(key, pending[key])
+            return False
+        return ctx.fail(what, rec, key=key, found_input=found_input)
     ctx.coverage["model_variant"] = ctx.meta["model_variant"]
     cases = []          # (label, lhs, rhs) for ctx.coq_cases
     recs = []
@@ -516,8 +537,8 @@ def run(ctx):
             except Exception:  # noqa
                 want = "None"
             add_case("convert_from_interleaved#%d" % k,
-                     "convert_from_interleaved_v %s %s %s" % (
-                         coq(fb),
+                     "convert_from_interleaved_v %s %s %s %s" % (
+                         coq(fb), coq(fio),
                          lst(sub_lit(s) for s in form["subs"]),
                          opt(None if form["out"] is None else sub_lit(form["out"]))),
                      want, dict(rec, function="convert_from_interleaved"))
@@ -744,7 +765,7 @@ def run(ctx):
                  sample=dict(form=form, features=sorted(feats)) if len(ctx.coverage["samples"]) < 4 else None)
         if not good:
             key = classify(form, feats, arrays, want)
-            ctx.fail("cotengra.einsum differs from numpy.einsum: %s" % (
+            report("cotengra.einsum differs from numpy.einsum: %s" % (
                 got[1] if got[0] != "ok" else "shape %r vs %r" % (np.asarray(got[1]).shape, np.asarray(want).shape),),
                 dict(rec, cotengra=repr(got[1]) if got[0] != "ok" else np.asarray(got[1]).tolist(),
                      model_agrees_with_spec=agree, model_network_consistent=consistent), key=key)
@@ -754,7 +775,7 @@ def run(ctx):
             # the model (tied to the code by K1) finds nothing wrong in the front end of a failing call:
             # the defect is outside the modelled functions (or the model is wrong)
             ctx.count("failing_call_not_explained_by_model")
-            ctx.fail("model verdict (agrees_with_numpy=%r, front_consistent=%r) does not explain the failing "
+            report("model verdict (agrees_with_numpy=%r, front_consistent=%r) does not explain the failing "
                      "end-to-end result" % (agree, consistent), rec, key=classify(form, feats, arrays, want),
                      found_input=True)
         if good and not model_ok:
